@@ -22,6 +22,7 @@ type c13Peer struct {
 	Local   string `json:"local,omitempty"`
 	Passive bool   `json:"passive"`
 	State   string `json:"state"`           // fresh aborted-in opensent openconfirm est-in est-out est-collision held-down deleted readded
+	Hold0   bool   `json:"hold0,omitempty"` // the peer is configured with hold time 0
 	HD      string `json:"hd,omitempty"`    // held-down: state in which the protocol error is caused (default opensent)
 	HDCode  uint8  `json:"hd_code,omitempty"` // held-down: 0 = corebgp sends the NOTIFICATION (bad marker); else the remote sends one with this code (never 6)
 	ArmD    int64  `json:"arm_d,omitempty"` // est-collision: delay of the peer manager at its collision schedule point
@@ -44,7 +45,11 @@ type c13Case struct {
 }
 
 func c13Spec(p c13Peer, i int) world.PeerSpec {
-	return world.PeerSpec{Remote: p.Remote, Local: p.Local, LocalAS: 64512, RemoteAS: uint32(64600 + i), Passive: p.Passive, Hold: 90}
+	sp := world.PeerSpec{Remote: p.Remote, Local: p.Local, LocalAS: 64512, RemoteAS: uint32(64600 + i), Passive: p.Passive, Hold: 90}
+	if p.Hold0 {
+		sp.Hold = 0
+	}
+	return sp
 }
 
 // c13Admit is the reference admission rule.
@@ -381,7 +386,7 @@ func genC13(rt *rapid.T) c13Case {
 			continue
 		}
 		used[rem] = true
-		p := c13Peer{Remote: rem, Passive: rapid.Bool().Draw(rt, "passive")}
+		p := c13Peer{Remote: rem, Passive: rapid.Bool().Draw(rt, "passive"), Hold0: rapid.IntRange(0, 3).Draw(rt, "hold0") == 0}
 		if rapid.Bool().Draw(rt, "withlocal") {
 			if netip.MustParseAddr(rem).Is4() {
 				p.Local = pick(rt, "local4", "10.0.0.1", "10.0.1.1")
@@ -436,9 +441,10 @@ func genC13(rt *rapid.T) c13Case {
 	switch rapid.IntRange(0, 5).Draw(rt, "dstkind") {
 	case 0:
 		if is4 {
-			c.Dst = pick(rt, "wrong4", "10.0.0.77", "10.0.1.1", "10.0.0.1", "127.0.0.1")
+			// (the last three extend the text of a configured local address: 10.0.0.1 / 10.0.1.1)
+			c.Dst = pick(rt, "wrong4", "10.0.0.77", "10.0.1.1", "10.0.0.1", "127.0.0.1", "10.0.0.10", "10.0.0.123", "10.0.1.19")
 		} else {
-			c.Dst = pick(rt, "wrong6", "2001:db8::77", "2001:db8:1::1", "2001:db8::1", "::1")
+			c.Dst = pick(rt, "wrong6", "2001:db8::77", "2001:db8:1::1", "2001:db8::1", "::1", "2001:db8::10", "2001:db8::1:1", "2001:db8:1::1f")
 		}
 	default:
 		c.Dst = right
